@@ -14,7 +14,8 @@ GPR.eval).  After knocking out G:
   bounds(r) == (0, 0)  <=>  r has a rule and the rule is false with G absent      (original bounds are never (0, 0))
   every other reaction (also every reaction without a rule) keeps its original bounds,
   gene.functional == (gene not in G), reaction.functional == value of the rule,
-  the solver holds exactly the bounds the reactions report (bcc.views.check_lp_reported, read back from GLPK),
+  the solver holds exactly the bounds the reactions report (column bounds read back from GLPK after every sequence,
+  the complete bcc.views.check_lp_reported on every third one and on all Reaction.knock_out cases),
   knock_out_model_genes returns exactly (as a set, no repeats) the reactions that are off,
   Reaction.knock_out() zeroes that reaction's bounds and nothing else.
 Integrity (needed to reuse a model for the next sequence, reported under the key "restore"): leaving the context(s)
@@ -228,7 +229,9 @@ def scenario(case, sc):
         if sc.get("rxn") is not None:
             case.rxns[sc["rxn"]].knock_out()
             K = (sc["rxn"],)
-        out += case.check(absent_order, K)
+        # solver side: column bounds read back from GLPK every time, the complete Inv_LP (rows, objective, stray
+        # variables as well) on every third sequence
+        out += case.check(absent_order, K, full=sc.get("full", True))
     if ctx >= 1:
         back = case.check((), full=False)
         if back:
@@ -252,8 +255,9 @@ def scenarios_for(case, rng, all_orders_upto, rxn_all=True):
                 if ctx == 2 and len(order) < 2:
                     continue
                 k += 1
-                yield {"entry": "gene", "order": order, "ctx": ctx, "rxn": (k % nr) if k % 5 == 0 else None}
-                yield {"entry": "model", "order": order, "ctx": ctx, "form": forms[k % 5], "rxn": None}
+                yield {"entry": "gene", "order": order, "ctx": ctx, "rxn": (k % nr) if k % 5 == 0 else None,
+                       "full": k % 3 == 0}
+                yield {"entry": "model", "order": order, "ctx": ctx, "form": forms[k % 5], "rxn": None, "full": k % 3 == 1}
     if rxn_all:
         for j in range(nr):
             for ctx in (0, 1):
